@@ -168,6 +168,9 @@ def run(ctx):
     corpus = c02.load_corpus("C01")
     progs = corpus + progs
     feats = [["corpus"]] * len(corpus) + feats
+    rp = c02.replay_program(ctx)
+    if rp is not None:
+        progs, feats = [rp], [["replay"]]
     res = c02.run_stream(ctx, progs, passes="dce")
     if res is None:
         return
